@@ -81,6 +81,9 @@ def cases(tier, seed):
     nrand = 150 if tier == "quick" else 60000
     for j in range(nrand):
         out.append({"kind": "random", "s": int(rng.integers(1 << 30)), "cell": [None, "ortho", "tri"][j % 3]})
+    # one site listed on two opposite faces of a triclinic cell (fractional 0 and 1): the two entries coincide through a periodic image
+    for j in range(80 if tier == "quick" else 6000):
+        out.append({"kind": "random", "s": int(rng.integers(1 << 30)), "cell": "tri", "coincide": True})
     return out
 
 
@@ -235,14 +238,16 @@ def run_case(case, ctx):
         pos = rng.uniform(0, 1, (n, 3)).dot(cell)
     # degenerate placements: two atoms at the very same position, or at the same point of two opposite cell faces - their
     # minimum-image distance is exactly 0, which is below every cutoff
-    if len(pos) >= 2 and case["s"] % 6 == 0:
+    if len(pos) >= 2 and (case["s"] % 3 == 0 or case.get("coincide")):
         i, j = [int(x) for x in rng.choice(len(pos), 2, replace=False)]
-        if cell is not None and rng.integers(2):
+        if cell is not None and (rng.integers(2) or case.get("coincide")):
             k = int(rng.integers(3))
             f = G.frac(cell, pos[i:i + 1])[0]
             f[k] = 0.0
             pos[i] = f.dot(cell)
-            pos[j] = pos[i] + cell[k]
+            f2 = f.copy()
+            f2[k] = 1.0
+            pos[j] = f2.dot(cell) if (rng.integers(2) or case.get("coincide")) else pos[i] + cell[k]      # fractional 0 and 1, as a CIF lists such a site
         else:
             pos[j] = pos[i]
         st.count("structures_with_two_atoms_at_distance_zero")
